@@ -13,6 +13,10 @@ Desc_fixbuf_bounddim == [dim |-> <<"bounded", 2>>, size |-> <<"fixed", 6>>, cons
 Desc_fixbuf_const == [dim |-> <<"fixed", 2>>, size |-> <<"fixed", 6>>, const |-> <<<<2, 3>>>>, clip |-> <<>>, init |-> <<2, 3>>]
 Desc_boundbuf_clipped == [dim |-> <<"fixed", 2>>, size |-> <<"bounded", 6>>, const |-> <<>>, clip |-> <<<<3, 3>>>>, init |-> <<2, 3>>]
 Desc_dyn_clipped == [dim |-> <<"fixed", 2>>, size |-> <<"any", 0>>, const |-> <<>>, clip |-> <<<<3, 3>>>>, init |-> <<2, 3>>]
+\* the legacy classes: fixed_ndarray<T,2,3> (no resize member), hybrid_ndarray<T,6,2> (fixed dimension, bounded size), dynamic_ndarray<T>
+Desc_legacy_fixed == Desc_fixbuf_const
+Desc_legacy_hybrid == Desc_boundbuf_fixdim
+Desc_legacy_dynamic == Desc_dyn_dyn
 ShapesQuick == {<<6>>, <<2, 3>>, <<3, 2>>, <<1, 6>>, <<2, 2>>, <<3, 3>>, <<4, 2>>, <<2, 3, 1>>, <<1, 2, 3>>, <<2, 2, 2>>}
 ShapesThorough == ShapesOf(1, 3, 1..3) \cup {<<6>>, <<1, 6>>, <<6, 1>>, <<4, 2>>, <<2, 4>>, <<4, 4>>}
 =================================================================================
